@@ -232,7 +232,7 @@ def conformance(chk, sd, name, c):
     return div
 
 
-def run_check(pid, tier, props, plan_list, rule=None, snap=False, extra=None, clauses=None, alias=(), guards=()):
+def run_check(pid, tier, props, plan_list, rule=None, snap=False, extra=None, clauses=None, alias=(), guards=(), samehost=()):
     chk = vlib.Check(pid, tier)
     sd = vlib.scratch(pid.lower())
     binp = build_lbsim(sd)
@@ -272,6 +272,22 @@ def run_check(pid, tier, props, plan_list, rule=None, snap=False, extra=None, cl
             for s in sc2:
                 chk.count_case([s["cfg"]["strategy"], len(s["steps"]), s["id"]])
             judge(chk, tp2, sc2, set(props), sd, "alias-" + name, clauses=clauses)
+        if name in samehost:
+            # the same walks with every backend on ONE host name, told apart by the port only (docker-style
+            # host:8001, host:8002): whatever is kept per backend must not be keyed by the host
+            import copy
+            sc4 = copy.deepcopy(scripts)
+            for s in sc4:
+                s["id"] = "samehost-" + s["id"]
+                s["cfg"]["samehost"] = True
+                for st in s["steps"]:
+                    if st["a"] == "admin" and st["op"] == "add" and not st["addr"].startswith("http://["):
+                        st["addr"] = "http://backend.test:%d" % (8000 + int(st["name"][1:]))
+            tp4 = replay(binp, sc4, sd, "samehost-" + name)
+            chk.cov["traces_validated_against_impl"] += len(sc4)
+            for s in sc4:
+                chk.count_case([s["cfg"]["strategy"], len(s["steps"]), s["id"]])
+            judge(chk, tp4, sc4, set(props), sd, "samehost-" + name, clauses=clauses)
         if name in guards:
             # the same walks with the optional guards switched on (circuit breaker: 2 failures open it for one
             # tick; rate limiter: 3 tokens, one more per second): requests they turn away are not dispatched,
